@@ -151,7 +151,8 @@ Inductive label :=
 | Recv (p c : nat)                  (* receiver.Next returns an announcement of head c *)
 | Spawn (p : nat)                   (* a caller enters SyncAdChain for publisher p *)
 | Remove (p : nat) (removed : bool) (* RemoveHandler(p) / the idle cleaner, and what it returned *)
-| Step (t : nat) (ok : bool).       (* thread t performs its next operation; ok: the sync succeeds *)
+| Step (t : nat) (ok : bool).       (* thread t performs its next operation; ok: the sync succeeds
+                                       (at PHandle) / the sync client can be created (at PCmp) *)
 
 Definition updf {A} (f : nat -> A) (k : nat) (v : A) : nat -> A :=
   fun x => if Nat.eqb x k then v else f x.
@@ -282,9 +283,20 @@ Section Step.
       if (head =? 0) || (t_stop th =? head) then
         Some (put s t (set_pc th1 (exit_pc (t_kind th))), None)
       else
-        let s1 := set_regress s (regress s || (head <? t_stop th)) in
-        if lockfix v then Some (put s1 t (set_pc th1 PHandle), Some YHandleLocked)
-        else Some (put s1 t (set_pc th1 PLockS), None)
+        let go_on :=
+          let s1 := set_regress s (regress s || (head <? t_stop th)) in
+          if lockfix v then Some (put s1 t (set_pc th1 PHandle), Some YHandleLocked)
+          else Some (put s1 t (set_pc th1 PLockS), None) in
+        (* ok = false here: h.makeSyncer fails for the announced addresses; asyncSyncFailed
+           un-caches the CID and sends the error event, nothing is synced.  (SyncAdChain
+           calls makeSyncer before this point and just returns the error: not modelled.) *)
+        if ok then go_on
+        else match t_kind th with
+             | KAsync =>
+               let s1 := set_events s ({| e_pub := p; e_head := head; e_err := true |} :: events s) in
+               Some (put s1 t (set_pc th1 (exit_pc KAsync)), None)
+             | _ => go_on
+             end
     | PHandle =>
       if ok then
         let w := walk (t_stop th) (t_msg th) in
@@ -601,12 +613,15 @@ Definition expected_asyncSyncAdChain : skel :=
    SIf "latestSyncLink != nil" [SIf "stopAtCid == nextCid" [SReturn] []]   (* PCmp *)
        [SIf "h.subscriber.firstSyncDepth != 0" [SCall "recursionLimit"] []];
    SCall "makeSyncer";
-   SIf "err != nil" [SReturn] [];
+   SIf "err != nil" [SCall "asyncSyncFailed"; SReturn] [];        (* PCmp with ok = false: error event *)
    SCall "ExploreRecursiveWithStopNode";
    SCall "handle";                                    (* PHandle, PReport, PUnlocking *)
    SCall "verifYield";                                (* async:handled *)
-   SIf "err != nil" [SSend "h.subscriber.inEvents"; SReturn] [];   (* PHandled, error event *)
+   SIf "err != nil" [SCall "asyncSyncFailed"; SReturn] [];        (* PHandled, error event *)
    SCall "sendSyncFinishedEvent"].                    (* PHandled, PSend *)
+
+Definition expected_asyncSyncFailed : skel :=
+  [SSend "h.subscriber.inEvents"].
 
 Definition expected_handle : skel :=
   [SCall "verifYield";                                (* handle:locked -- the caller holds h.syncMutex *)
@@ -678,6 +693,7 @@ Definition expected_idleHandlerCleaner : skel :=
 Definition expected : list (string * skel) :=
   [("Subscriber.watch", expected_watch);
    ("handler.asyncSyncAdChain", expected_asyncSyncAdChain);
+   ("handler.asyncSyncFailed", expected_asyncSyncFailed);
    ("handler.handle", expected_handle);
    ("Subscriber.SyncAdChain", expected_SyncAdChain);
    ("handler.sendSyncFinishedEvent", expected_sendSyncFinishedEvent);
@@ -713,13 +729,14 @@ Definition c08_env (name : string) : option callee :=
   else if String.eqb name "handle" then Some {| c_blocks := true; c_locks := [] |}
   else if String.eqb name "asyncSyncAdChain" then Some {| c_blocks := true; c_locks := ["h.syncMutex"] |}
   else if String.eqb name "sendSyncFinishedEvent" then Some {| c_blocks := true; c_locks := [] |}
+  else if String.eqb name "asyncSyncFailed" then Some {| c_blocks := true; c_locks := [] |}
   else if String.eqb name "makeSyncer" then Some {| c_blocks := true; c_locks := [] |}
   else None.
 
 (* every return path of the functions of interest (and of the goroutine watch starts)
    releases every mutex it took, and never takes one it holds *)
 Definition of_interest : list string :=
-  ["Subscriber.watch"; "handler.asyncSyncAdChain"; "handler.handle"; "Subscriber.SyncAdChain";
+  ["Subscriber.watch"; "handler.asyncSyncAdChain"; "handler.asyncSyncFailed"; "handler.handle"; "Subscriber.SyncAdChain";
    "handler.sendSyncFinishedEvent"; "Subscriber.getOrCreateHandler"; "Subscriber.releaseHandler";
    "Subscriber.RemoveHandler"; "Subscriber.idleHandlerCleaner"; "Subscriber.syncEntries"].
 Definition balance_ok (gen : list (string * skel)) : bool :=
